@@ -9,8 +9,8 @@ RULE = (
     "Enumerated: every labelled ordered forest over N <= 3 (quick) / N <= 4 (thorough) nodes x 3 build routes x every structural call "
     "(every parent target, every children sequence incl. repeats/self/ancestors, deletions, non-node and non-iterable arguments) x "
     "every position at which any of the eight hooks can raise (once; pairs up to N=3; single persistent (hook,node) pairs; read-only "
-    "class plan), for a NodeMixin class, a slotted LightNodeMixin class and a mixed-family universe, each under both assertion settings. "
-    "Generated: Hypothesis histories (<= 7 nodes, <= 30 calls) over 8 class mixes with random fault plans. Non-trivial = the call "
+    "class plan), for a NodeMixin class, a slotted LightNodeMixin class, a mixed-family universe and two classes whose instances all compare equal (value-style __eq__/__hash__), each under both assertion settings. "
+    "Generated: Hypothesis histories (<= 7 nodes, <= 30 calls) over 11 class mixes with random fault plans. Non-trivial = the call "
     "changed at least one link, or raised after at least one hook had run. Enumerated cases distinct by construction; histories hashed."
 )
 ASSUMPTIONS = [
@@ -27,6 +27,9 @@ CLASS_SPECS = [
     ["HNode", "HLM", "HSymlink", "HDictLM", "HAnyNode"],
     ["Node", "AnyNode", "SymlinkNode", "PlainNM"],
     ["SlotLM", "DictLM"],
+    "HEqNM",
+    "HEqLM",
+    ["HEqNM", "HNM"],
 ]
 
 
@@ -58,7 +61,7 @@ def check_case(case, acc):
     acc.tag("assertions_on_cases", int(case.get("assertions", 0)))
 
 
-ENUM_SPECS = ["HNM", "HLM", ["HNM", "HLM"]]
+ENUM_SPECS = ["HNM", "HLM", ["HNM", "HLM"], "HEqNM", "HEqLM"]
 
 
 def plan(tier, seed):
@@ -68,8 +71,11 @@ def plan(tier, seed):
         for n in ([1, 2, 3] if tier == "quick" else [1, 2, 3, 4]):
             shards = 1 if n < 3 else (nshards if n == 3 else nshards * 4)
             for spec_i in range(len(ENUM_SPECS)):
+                eq_class = spec_i >= 3  # equal-comparing classes: single faults, one assertion setting (quick); everything in thorough
+                if eq_class and tier == "quick" and (assertions == 0 or n > 3):
+                    continue
                 for i in range(shards):
-                    tasks.append({"engine": "enum", "n": n, "spec": spec_i, "index": i, "count": shards, "assertions": assertions, "pairs": n <= 3, "routes": None if n <= 3 else ["parent", "detour"]})
+                    tasks.append({"engine": "enum", "n": n, "spec": spec_i, "index": i, "count": shards, "assertions": assertions, "pairs": n <= 3 and not (eq_class and tier == "quick"), "routes": None if n <= 3 else ["parent", "detour"]})
         examples = 25 if tier == "quick" else 250
         for i in range(nshards):
             tasks.append({"engine": "hyp", "examples": examples, "seed": seed * 1000 + i + 100 * assertions, "assertions": assertions})
